@@ -153,3 +153,10 @@ package lib
 //@   pure
 //@   ensures[range] r == -1 || (0 <= r && r < len(s) && EncAt(s, r, ch))
 //@   ensures[first] forall k int {EncAt(s, k, ch)} :: 0 <= k && (r < 0 || k < r) ==> !EncAt(s, k, ch)
+
+// strings.IndexAny with an ASCII character list: first byte of s that equals one of the listed bytes
+//@ spec func ByteIn(chars string, b byte) bool = exists q int {chars[q]} :: 0 <= q && q < len(chars) && chars[q] == b
+//@ lib func strings.IndexAny(s string, chars string) (r int)
+//@   pure
+//@   ensures[range] AsciiStr(chars) ==> -1 <= r && r < len(s) && (r >= 0 ==> ByteIn(chars, s[r]))
+//@   ensures[first] AsciiStr(chars) ==> forall k int {s[k]} :: 0 <= k && k < len(s) && (r < 0 || k < r) ==> !ByteIn(chars, s[k])
